@@ -650,8 +650,11 @@ def select__index_of(self: XPathFunction, context: ta.ContextType = None) -> Ite
 
     with CollationManager(collation, self) as manager:
         for pos, result in enumerate(self[0].atomization(context), start=1):
-            if manager.eq(result, value):
-                yield pos
+            try:
+                if manager.eq(result, value):
+                    yield pos
+            except (TypeError, ValueError, ArithmeticError):
+                continue  # values that cannot be compared are not equal
 
 
 @method(function('remove', nargs=2, sequence_types=('item()*', 'xs:integer', 'item()*')))
